@@ -782,7 +782,7 @@ theorem sim_pragma_noinc (w w' : WfSt) (frozen isTop : Bool) (fc : Option Cond) 
     (hw : wfPragma incW dir frozen w toks = some w')
     (ht : doPragma incT dir Gt Lt toks = .ok (Gt', Lt'))
     (hf : flatPragma incF dir c fst raw toks = .ok (c', fst')) :
-    fst'.out = fst.out ++ [raw] ∧ (w'.swallow = false → c' = w'.cond) ∧
+    (fst'.out = fst.out ++ [raw] ∧ fst'.abort = fst.abort) ∧ (w'.swallow = false → c' = w'.cond) ∧
       ∃ Gf' Lf', doPragma noInc [] Gf Lf toks = .ok (Gf', Lf') ∧
         Rel w' frozen isTop fc anc m0 fst'.defs Gt' Lt' Gf' Lf' := by
   have I := R.i
@@ -805,7 +805,7 @@ theorem sim_pragma_noinc (w w' : WfSt) (frozen isTop : Bool) (fc : Option Cond) 
   · -- #endif
     rw [if_pos c1] at hw ht hf ⊢
     injection hf with hf; injection hf with hc' hfst; subst hc' hfst
-    refine ⟨rfl, ?_⟩
+    refine ⟨⟨rfl, rfl⟩, ?_⟩
     by_cases hp : w.phase2 = true
     · rw [if_pos hp] at hw
       split at hw
@@ -846,7 +846,7 @@ theorem sim_pragma_noinc (w w' : WfSt) (frozen isTop : Bool) (fc : Option Cond) 
     · -- #else
       rw [if_pos c2] at hw ht hf ⊢
       injection hf with hf; injection hf with hc' hfst; subst hc' hfst
-      refine ⟨rfl, ?_⟩
+      refine ⟨⟨rfl, rfl⟩, ?_⟩
       split at hw
       · cases hw
       · by_cases hp : w.phase2 = true
@@ -905,7 +905,7 @@ theorem sim_pragma_noinc (w w' : WfSt) (frozen isTop : Bool) (fc : Option Cond) 
         | [k, tag], hw, ht, hf =>
           simp only at hw ht hf ⊢
           injection hf with hf; injection hf with hc' hfst; subst hc' hfst
-          refine ⟨rfl, ?_⟩
+          refine ⟨⟨rfl, rfl⟩, ?_⟩
           split at hw
           · cases hw
           · rename_i hk
@@ -1002,12 +1002,12 @@ theorem sim_pragma_noinc (w w' : WfSt) (frozen isTop : Bool) (fc : Option Cond) 
               simp only [hcc, Option.isNone_none, if_true] at ht hf ⊢
               injection hf with hf; injection hf with hc' hfst; subst hc' hfst
               injection ht with ht; injection ht with hg hl; subst hg hl
-              exact ⟨rfl, fun hs => (by rw [hcw]), _, _, rfl, key tag none _ _ _ rfl rfl rfl⟩
+              exact ⟨⟨rfl, rfl⟩, fun hs => (by rw [hcw]), _, _, rfl, key tag none _ _ _ rfl rfl rfl⟩
             | _ :: tag :: v :: vals, _, ht, hf =>
               simp only [hcc, Option.isNone_none, if_true] at ht hf ⊢
               injection hf with hf; injection hf with hc' hfst; subst hc' hfst
               injection ht with ht; injection ht with hg hl; subst hg hl
-              exact ⟨rfl, fun hs => (by rw [hcw]), _, _, rfl, key tag (some (v :: vals)) _ _ _ rfl rfl rfl⟩
+              exact ⟨⟨rfl, rfl⟩, fun hs => (by rw [hcw]), _, _, rfl, key tag (some (v :: vals)) _ _ _ rfl rfl rfl⟩
           · cases hw
         · rw [if_neg c4] at hw ht hf ⊢
           by_cases c5 : (toks.headD "" == "#error") = true
@@ -1024,7 +1024,12 @@ theorem sim_pragma_noinc (w w' : WfSt) (frozen isTop : Bool) (fc : Option Cond) 
                 injection hf with hf; injection hf with hc' hfst; subst hc'
                 have hout : fst'.out = fst.out ++ [raw] := by rw [← hfst]; split <;> rfl
                 have hdf : fst'.defs = fst.defs := by rw [← hfst]; split <;> rfl
-                refine ⟨hout, fun hs => hc hs, Gf, Lf, ?_, by rw [hdf]; exact R⟩
+                have hab : fst'.abort = fst.abort := by
+                  -- the tree skipped the #error, so its condition does not hold for the flattener either
+                  have hh : holds fst.defs c = false := by
+                    rw [hc hsw', holds_eq fst.defs Gt w.cond R.g.defsOk, ← R.c.condT, hoff]; rfl
+                  rw [← hfst, hh]; rfl
+                refine ⟨⟨hout, hab⟩, fun hs => hc hs, Gf, Lf, ?_, by rw [hdf]; exact R⟩
                 -- the flat director skips the #error as well
                 cases hfz : frozen with
                 | false =>
@@ -1301,7 +1306,7 @@ def SimFile (fs : FS) (fuel : Nat) : Prop :=
     flatRun fst.out = .ok (Gf, Lf) →
     Rel { phase2 := ph } frozen false fc anc m0 fst.defs Gt {} Gf Lf →
     ∃ Gf' Lf' Gt1 Lt1 w',
-      flatRun fst'.out = .ok (Gf', Lf') ∧ finalize Gt1 Lt1 = .ok gt' ∧
+      flatRun fst'.out = .ok (Gf', Lf') ∧ fst'.abort = fst.abort ∧ finalize Gt1 Lt1 = .ok gt' ∧
       Rel w' frozen false fc anc m0 fst'.defs Gt1 Lt1 Gf' Lf' ∧
       w'.cond = none ∧ w'.phase2 = ph' ∧ (ph = true → ph' = true)
 
@@ -1332,7 +1337,7 @@ theorem sim_include (fs : FS) (fuel : Nat) (IH : SimFile fs fuel)
     (hw : wfPragma (fun p fr ph => wfFile fs fuel false p fr ph) dir frozen w toks = some w')
     (ht : doPragma (readFile fs fuel) dir Gt Lt toks = .ok (Gt', Lt'))
     (hf : flatPragma (flattenFile fs fuel) dir c fst raw toks = .ok (c', fst')) :
-    (w'.swallow = false → c' = w'.cond) ∧ (w.phase2 = true → w'.phase2 = true) ∧
+    (w'.swallow = false → c' = w'.cond) ∧ (w.phase2 = true → w'.phase2 = true) ∧ fst'.abort = fst.abort ∧
       ∃ Gf' Lf', flatRun fst'.out = .ok (Gf', Lf') ∧ Rel w' frozen isTop fc anc m0 fst'.defs Gt' Lt' Gf' Lf' := by
   obtain ⟨k1, k2, k3, k4, k5⟩ := include_consts toks hinc
   unfold wfPragma at hw
@@ -1376,7 +1381,7 @@ theorem sim_include (fs : FS) (fuel : Nat) (IH : SimFile fs fuel)
             have hph : ph = w.phase2 := by
               have := wfFile_frozen fs fuel false full w.phase2 ph (by simpa [hcs] using hwf)
               exact this
-            exact ⟨fun _ => hcc, fun h => by rw [hph]; exact h, Gf, Lf, hflat, rel_fresh w ph frozen isTop fc anc m0 _ Gt Lt Gf Lf hph R⟩
+            exact ⟨fun _ => hcc, fun h => by rw [hph]; exact h, rfl, Gf, Lf, hflat, rel_fresh w ph frozen isTop fc anc m0 _ Gt Lt Gf Lf hph R⟩
           | false =>
             simp only [hoff, Bool.false_eq_true, if_false] at ht
             simp only [hholds, hoff, Bool.not_false, if_true] at hf
@@ -1391,7 +1396,7 @@ theorem sim_include (fs : FS) (fuel : Nat) (IH : SimFile fs fuel)
                 simp only [hff, Except.map] at hf
                 injection hf with hf; injection hf with hc' hfst; subst hc' hfst
                 have Rstart := rel_child_start w frozen isTop fc anc m0 _ Gt Lt Gf Lf R hoff
-                obtain ⟨Gf', Lf', Gt1, Lt1, wc, hfl', hfin, Rc, hcnone, hphc, hmono⟩ :=
+                obtain ⟨Gf', Lf', Gt1, Lt1, wc, hfl', habc, hfin, Rc, hcnone, hphc, hmono⟩ :=
                   IH full (frozen || w.cond.isSome) w.phase2 ph _ _ _ fst fst1 Gt gt1 Gf Lf hwf hff hrf hflat Rstart
                 have hfrz : (frozen || w.cond.isSome) = true → ph = w.phase2 := by
                   intro hfz
@@ -1399,7 +1404,7 @@ theorem sim_include (fs : FS) (fuel : Nat) (IH : SimFile fs fuel)
                   exact wfFile_frozen fs fuel false full w.phase2 ph hwf
                 have Rafter := rel_after_child w wc frozen isTop fc _ anc m0 _ _ Gt Lt Gf Lf Gt1 Lt1 Gf' Lf' gt1 ph
                   R Rc rfl hfin hcnone hphc hfrz hmono
-                exact ⟨fun _ => hcc, hmono, Gf', Lf', hfl', Rafter⟩
+                exact ⟨fun _ => hcc, hmono, habc, Gf', Lf', hfl', Rafter⟩
   | [], hw, _, _ => simp at hw
   | [_], hw, _, _ => simp at hw
 
@@ -1504,7 +1509,7 @@ theorem sim_line (fs : FS) (fuel : Nat) (IH : SimFile fs fuel)
     (hw : wfLine (fun p fr ph => wfFile fs fuel false p fr ph) dir frozen isTop w raw = some w1)
     (ht : treeLine (readFile fs fuel) dir (Gt, Lt) raw = .ok (Gt1, Lt1))
     (hf : flatLine (flattenFile fs fuel) dir c fst raw = .ok (c1, fst1)) :
-    (w1.swallow = false → c1 = w1.cond) ∧ (w.phase2 = true → w1.phase2 = true) ∧
+    (w1.swallow = false → c1 = w1.cond) ∧ (w.phase2 = true → w1.phase2 = true) ∧ fst1.abort = fst.abort ∧
       ∃ Gf1 Lf1, flatRun fst1.out = .ok (Gf1, Lf1) ∧ Rel w1 frozen isTop fc anc m0 fst1.defs Gt1 Lt1 Gf1 Lf1 := by
   unfold wfLine at hw
   unfold treeLine at ht
@@ -1515,7 +1520,7 @@ theorem sim_line (fs : FS) (fuel : Nat) (IH : SimFile fs fuel)
     injection hw with hw; subst hw
     injection ht with ht; injection ht with hg hl; subst hg hl
     injection hf with hf; injection hf with h1 h2; subst h1 h2
-    refine ⟨hc, id, Gf, Lf, ?_, R⟩
+    refine ⟨hc, id, rfl, Gf, Lf, ?_, R⟩
     rw [flatRun_keep _ raw Gf Lf hflat]; unfold treeLine; rw [hcl]
   | some line =>
     cases line with
@@ -1525,7 +1530,7 @@ theorem sim_line (fs : FS) (fuel : Nat) (IH : SimFile fs fuel)
       simp only [step] at ht
       injection ht with ht; injection ht with hg hl; subst hg hl
       injection hf with hf; injection hf with h1 h2; subst h1 h2
-      refine ⟨hc, id, Gf, Lf, ?_, R⟩
+      refine ⟨hc, id, rfl, Gf, Lf, ?_, R⟩
       rw [flatRun_keep _ raw Gf Lf hflat]; unfold treeLine; rw [hcl]; rfl
     | badHeader => simp [hcl] at hw
     | header name =>
@@ -1536,7 +1541,7 @@ theorem sim_line (fs : FS) (fuel : Nat) (IH : SimFile fs fuel)
       have R' := sim_header w w1 frozen isTop fc anc m0 _ Gt Lt Gf Lf name R hw
       have hflat' : flatRun (fst.out ++ [raw]) = .ok (Gf, doHeader Lf name) := by
         rw [flatRun_keep _ raw Gf Lf hflat]; unfold treeLine; rw [hcl]; rfl
-      refine ⟨?_, ?_, Gf, _, hflat', R'⟩
+      refine ⟨?_, ?_, rfl, Gf, _, hflat', R'⟩
       · -- the scan state keeps `cond` and `swallow` (headers need swallow = false where they reset anything)
         intro hs
         by_cases hm : (name == "moleculetype") = true
@@ -1592,19 +1597,19 @@ theorem sim_line (fs : FS) (fuel : Nat) (IH : SimFile fs fuel)
             simp only [Bool.and_eq_true, Bool.not_eq_true', not_and, Bool.not_eq_false] at hms
             exact hms h
           obtain ⟨Gf', Lf', hdo, R'⟩ := sim_content w frozen isTop fc anc m0 _ Gt Lt Gf Lf toks Gt1 Lt1 R hfresh hmol ht
-          refine ⟨hc, id, Gf', Lf', ?_, R'⟩
+          refine ⟨hc, id, rfl, Gf', Lf', ?_, R'⟩
           rw [flatRun_keep _ raw Gf Lf hflat]; unfold treeLine; rw [hcl]; exact hdo
     | pragma toks =>
       simp only [hcl] at hw ht hf
       simp only [step] at ht
       by_cases hinc : (toks.headD "" == "#include") = true
-      · obtain ⟨h1, h2, Gf', Lf', h3, h4⟩ := sim_include fs fuel IH w w1 frozen isTop fc anc m0 Gt Lt Gf Lf Gt1 Lt1 dir c c1
+      · obtain ⟨h1, h2, hab, Gf', Lf', h3, h4⟩ := sim_include fs fuel IH w w1 frozen isTop fc anc m0 Gt Lt Gf Lf Gt1 Lt1 dir c c1
           fst fst1 raw toks hinc R hc hflat hw ht hf
-        exact ⟨h1, h2, Gf', Lf', h3, h4⟩
+        exact ⟨h1, h2, hab, Gf', Lf', h3, h4⟩
       · have hni : (toks.headD "" == "#include") = false := by simpa using hinc
-        obtain ⟨hout, hc1, Gf', Lf', hdo, R'⟩ := sim_pragma_noinc w w1 frozen isTop fc anc m0 Gt Lt Gf Lf Gt1 Lt1 _ _ _ dir c c1
+        obtain ⟨⟨hout, hab⟩, hc1, Gf', Lf', hdo, R'⟩ := sim_pragma_noinc w w1 frozen isTop fc anc m0 Gt Lt Gf Lf Gt1 Lt1 _ _ _ dir c c1
           fst fst1 raw toks hni R hc hw ht hf
-        refine ⟨hc1, ?_, Gf', Lf', ?_, R'⟩
+        refine ⟨hc1, ?_, hab, Gf', Lf', ?_, R'⟩
         · -- no pragma other than #include changes the phase
           intro hp
           rw [wfPragma_phase _ dir frozen w w1 toks hni hw]; exact hp
@@ -1619,7 +1624,7 @@ theorem sim_lines (fs : FS) (fuel : Nat) (IH : SimFile fs fuel) (frozen isTop : 
       runLines (readFile fs fuel) dir (parseLines raws) (Gt, Lt) = .ok (Gt', Lt') →
       flatRun fst.out = .ok (Gf, Lf) →
       Rel w frozen isTop fc anc m0 fst.defs Gt Lt Gf Lf → (w.swallow = false → c = w.cond) →
-      (w.phase2 = true → w'.phase2 = true) ∧
+      (w.phase2 = true → w'.phase2 = true) ∧ fst'.abort = fst.abort ∧
         ∃ Gf' Lf', flatRun fst'.out = .ok (Gf', Lf') ∧ Rel w' frozen isTop fc anc m0 fst'.defs Gt' Lt' Gf' Lf' := by
   intro raws
   induction raws with
@@ -1631,7 +1636,7 @@ theorem sim_lines (fs : FS) (fuel : Nat) (IH : SimFile fs fuel) (frozen isTop : 
     injection hw with hw; subst hw
     injection hf with hf; subst hf
     injection ht with ht; injection ht with hg hl; subst hg hl
-    exact ⟨id, Gf, Lf, hflat, R⟩
+    exact ⟨id, rfl, Gf, Lf, hflat, R⟩
   | cons raw rest ih =>
     intro w w' c fst fst' Gt Lt Gt' Lt' Gf Lf hw hf ht hflat R hc
     simp only [wfLines] at hw
@@ -1651,10 +1656,10 @@ theorem sim_lines (fs : FS) (fuel : Nat) (IH : SimFile fs fuel) (frozen isTop : 
         | ok st1 =>
           obtain ⟨Gt1, Lt1⟩ := st1
           simp only [ht1] at ht
-          obtain ⟨hc1, hm1, Gf1, Lf1, hflat1, R1⟩ := sim_line fs fuel IH w w1 frozen isTop fc anc m0 Gt Lt Gf Lf Gt1 Lt1
+          obtain ⟨hc1, hm1, hab1, Gf1, Lf1, hflat1, R1⟩ := sim_line fs fuel IH w w1 frozen isTop fc anc m0 Gt Lt Gf Lf Gt1 Lt1
             dir c c1 fst fst1 raw R hc hflat hw1 ht1 hf1
-          obtain ⟨hm2, Gf', Lf', hflat', R'⟩ := ih w1 w' c1 fst1 fst' Gt1 Lt1 Gt' Lt' Gf1 Lf1 hw hf ht hflat1 R1 hc1
-          exact ⟨fun h => hm2 (hm1 h), Gf', Lf', hflat', R'⟩
+          obtain ⟨hm2, hab2, Gf', Lf', hflat', R'⟩ := ih w1 w' c1 fst1 fst' Gt1 Lt1 Gt' Lt' Gf1 Lf1 hw hf ht hflat1 R1 hc1
+          exact ⟨fun h => hm2 (hm1 h), hab2.trans hab1, Gf', Lf', hflat', R'⟩
 
 theorem sim_file (fs : FS) : ∀ fuel, SimFile fs fuel := by
   intro fuel
@@ -1684,9 +1689,9 @@ theorem sim_file (fs : FS) : ∀ fuel, SimFile fs fuel := by
           | ok st1 =>
             obtain ⟨Gt1, Lt1⟩ := st1
             simp only [hrl] at ht
-            obtain ⟨hmono, Gf', Lf', hflat', R'⟩ := sim_lines fs fuel IH frozen false fc anc m0 path.dropLast raws
+            obtain ⟨hmono, hab, Gf', Lf', hflat', R'⟩ := sim_lines fs fuel IH frozen false fc anc m0 path.dropLast raws
               { phase2 := ph } w' none fst fst' Gt {} Gt1 Lt1 Gf Lf hwl hf hrl hflat R (fun _ => rfl)
-            exact ⟨Gf', Lf', Gt1, Lt1, w', hflat', ht, R', hend.1.1, hw, fun h => by rw [← hw]; exact hmono h⟩
+            exact ⟨Gf', Lf', Gt1, Lt1, w', hflat', hab, ht, R', hend.1.1, hw, fun h => by rw [← hw]; exact hmono h⟩
         · cases hw
 
 /-! ### the top file -/
@@ -1774,7 +1779,7 @@ theorem rel_init : Rel { phase2 := false } false true none [] [] ([] : List Stri
 read, the flattened text is read by the single-file reader, with the same observables. -/
 theorem flatten_equiv (fs : FS) (top : Path) (st : FlatSt) (gt : Glob)
     (hwf : wellFormed fs top = true) (hfl : flatten fs top = .ok st) (hrt : readTop fs top = .ok gt) :
-    ∃ gf, readSingle st.out = .ok gf ∧ ObsEq gt gf := by
+    st.abort = false ∧ ∃ gf, readSingle st.out = .ok gf ∧ ObsEq gt gf := by
   unfold wellFormed at hwf
   unfold flatten at hfl
   unfold readTop at hrt
@@ -1794,7 +1799,7 @@ theorem flatten_equiv (fs : FS) (top : Path) (st : FlatSt) (gt : Glob)
         obtain ⟨Gt1, Lt1⟩ := st1
         simp only [hrl] at hrt
         have hflat0 : flatRun ([] : List String) = .ok (({} : Glob), ({} : Loc)) := rfl
-        obtain ⟨_, Gf', Lf', hflat', R⟩ := sim_lines fs fs.length (sim_file fs fs.length) false true none [] []
+        obtain ⟨_, habort, Gf', Lf', hflat', R⟩ := sim_lines fs fs.length (sim_file fs fs.length) false true none [] []
           top.dropLast raws { phase2 := false } w' none {} st {} {} Gt1 Lt1 {} {} hwl hfl hrl hflat0 rel_init (fun _ => rfl)
         -- the two finalize steps
         have I := R.i
@@ -1854,7 +1859,7 @@ theorem flatten_equiv (fs : FS) (top : Path) (st : FlatSt) (gt : Glob)
               expandMols_congr Lt1.mols G1t G1f gt 0
                 (by rw [hmol, hmolf, R.g.gtMols.1, R.g.gfEmpty.2.2.1])
                 (by rw [hidx, hidxf, R.g.gtMols.2, R.g.gfEmpty.2.2.2]) hbn hrt
-            refine ⟨gf, ?_, ?_⟩
+            refine ⟨habort, gf, ?_, ?_⟩
             · have hrs : readSingle st.out = (match flatRun st.out with
                     | Except.error e => Except.error e
                     | Except.ok (g, l) => finalize g l) := rfl
